@@ -17,7 +17,9 @@ separated by `|`, each `key=value`:
 Output: `ok col=cell,cell,...;col=...` (dict order) or `err <ExceptionName>`.
 Cells are identity strings: `in(col,rowN)`, `calc(name,rowN)`, `cust(tag,rowN)`,
 `est(e,<cell>)`, `estc(tag,<cell>)`; a value computed from a dictionary that
-mixes rows would show as `rows3+1`.
+mixes rows would show as `rows3+1`.  When the dictionary of the per-step
+`AurelCore` holds custom-function values they are part of the identity:
+`calc(press_n,row3|press=cust(fp,row3))`.
 -/
 import AurelVerif.Model.Table
 open AurelVerif.Table
@@ -30,11 +32,19 @@ structure Cell where
 
 def dedup (l : List Nat) : List Nat := l.foldl (fun acc x => if acc.contains x then acc else acc ++ [x]) []
 
+/-- identity of the dictionary handed to the per-step `AurelCore`: the row it
+comes from, plus — explicitly — every custom-function value it holds as a
+frozen input (`|name=cell;...`, in dict order).  Fed-back built-in columns and
+estimate columns are not listed (they do not change what is computed: C01). -/
 def provStr (rd : Row Cell) : String × List Nat :=
   let p := dedup (rd.flatMap (fun kc => kc.2.prov))
-  match p with
-  | [n] => (s!"row{n}", p)
-  | _ => ("rows" ++ "+".intercalate (p.map toString), p)
+  let base := match p with
+    | [n] => s!"row{n}"
+    | _ => "rows" ++ "+".intercalate (p.map toString)
+  let frozen := rd.filter (fun kc => kc.2.id.startsWith "cust(")
+  let suffix := if frozen.isEmpty then "" else
+    "|" ++ ";".intercalate (frozen.map fun kc => kc.1 ++ "=" ++ kc.2.id)
+  (base ++ suffix, p)
 
 def splitNE (s : String) (sep : String) : List String :=
   if s.isEmpty then [] else s.splitOn sep
